@@ -8,6 +8,7 @@ import BqVerif.Proofs.CircReplace
 import BqVerif.Proofs.CircBatch
 import BqVerif.Proofs.CircSem
 import BqVerif.Proofs.CircUnfoldSem
+import BqVerif.Proofs.CircUnfoldAll
 /-! # C04 — Circuit editing calls have their documented effect on program order -/
 namespace BqVerif.C04
 open BqVerif.Circ
@@ -308,5 +309,42 @@ example :
       (c2.unfold b (1, 0)).1.cycles =
         [[⟨2, [], [1], [2]⟩], [⟨1, [], [2], [2]⟩], [⟨6, [], [2, 0], [2, 2]⟩], [⟨2, [], [0], [2]⟩]] := by
   decide
+
+/-- **unfold_all keeps the unitary**, for any number of rebuild rounds: for a hereditarily
+well-formed block table (`Blocks.HF`: every body is an `Inv` circuit whose own block operations
+stand on the radixes of their bodies) and a circuit whose block operations fit (`Fits`), every
+round keeps `Inv`, keeps the blocks fitting, and is one level of flattening up to commutation
+(`unfoldRound_same_den`), so the denotation never changes. -/
+theorem C04_unfold_all_same_unitary {M : Type} [Monoid M] (sem : Op → M)
+    (hcomm : ∀ a b, Indep a b → sem a * sem b = sem b * sem a) (b : Blocks) (hb : b.HF)
+    (hblock : ∀ o inner, expandOp b o = some inner → sem o = den sem inner)
+    (fuel : Nat) (c : Circ) (hinv : c.Inv) (hfit : Fits b c) :
+    (c.unfoldAll b fuel).Inv ∧ den sem (c.unfoldAll b fuel).iter = den sem c.iter :=
+  unfoldAll_same_den sem hcomm b hb hblock fuel c hinv hfit
+
+-- non-vacuity: a hereditarily well-formed table and a fitting circuit that really unfolds
+example :
+    let body : Circ := ⟨[2, 2], [[⟨1, [], [0], [2]⟩], [⟨6, [], [0, 1], [2, 2]⟩]]⟩
+    Blocks.HF [(1000, body)] := by
+  intro body gid bd h
+  simp only [Blocks.body?, List.find?_cons, List.find?_nil] at h
+  split at h
+  · simp only [Option.map_some, Option.some.injEq] at h
+    subst h
+    refine ⟨(invB_iff _).1 (by decide), ?_⟩
+    intro o ho bd' hb'
+    simp only [body, Circ.ops, List.flatten_cons, List.flatten_nil, List.cons_append,
+      List.nil_append, List.mem_cons, List.not_mem_nil, or_false] at ho
+    rcases ho with rfl | rfl <;> simp [Blocks.body?] at hb'
+  · simp at h
+example :
+    let body : Circ := ⟨[2, 2], [[⟨1, [], [0], [2]⟩], [⟨6, [], [0, 1], [2, 2]⟩]]⟩
+    let b : Blocks := [(1000, body)]
+    let c : Circ := ⟨[2, 2, 2], [[⟨2, [], [1], [2]⟩], [⟨1000, [], [2, 0], [2, 2]⟩]]⟩
+    c.invB = true ∧ (c.ops.all fun o => match b.body? o.gid with
+        | some bd => bd.radixes == o.rad
+        | none => true) = true ∧
+      (c.unfoldAll b 3).cycles =
+        [[⟨2, [], [1], [2]⟩, ⟨1, [], [2], [2]⟩], [⟨6, [], [2, 0], [2, 2]⟩]] := by decide
 
 end BqVerif.C04
